@@ -141,6 +141,7 @@ def run(cx: Cx):
                              f"draw can come from another generator whose state the seed does not determine", where=where)
     cx.floor('stochastic call sites', n_st, 2)
     rsites = cx.effects.sites_of((CORE + 'Model', 'random'))
+    minit0 = cx.fn(CORE + 'Model.__init__')
     for s in rsites:
         v = s.ev.data.get('value')
         if s.owner_q == CORE + 'Model.__init__' and s.kind == 'rebind' and v in (App('call', (Sym('random.Random'), Sym('seed'))), App('.Random', (Sym('random'), Sym('seed')))):
@@ -150,6 +151,23 @@ def run(cx: Cx):
                          f"{s.describe()}: the model's generator must be created once as random.Random(seed) from the unmodified "
                          f"constructor argument (found {v!r})", where=s.where)
     cx.floor('Model.random write sites', len(rsites), 1)
+    # ... and never rewound: the stream a model draws from is the one its constructor started (the constructor itself may already
+    # have drawn from it - initial placement, endowments); seeding it again afterwards replays the constructor's draws
+    n_calls = 0
+    for k, calls in cx.effects.calls.items():
+        kf = cx.prog.functions.get(k.split('#')[0])
+        for c in calls:
+            nm = str(c.data.get('callee_name', ''))
+            recv = c.data.get('recv')
+            n_calls += 1
+            if nm.rsplit('.', 1)[-1] in ('seed', 'setstate') and isinstance(recv, Attr) and recv.name == 'random' and kf is not None:
+                cx.violation('R-ENTROPY', kf.qualname, 'model-generator-never-reseeded',
+                             f"{kf.qualname} calls .{nm.rsplit('.', 1)[-1]}() on {recv!r}: the model's generator is re-started after the "
+                             f"constructor has drawn from it, so the run no longer continues the stream of Model(seed=s)",
+                             where=cx.where(kf, c.line))
+    if not any(o.key.endswith('model-generator-never-reseeded') for o in cx.violations()):
+        cx.ok('R-ENTROPY', f"no package function re-seeds a model's generator ({n_calls} call events examined)", where=cx.where(minit0),
+              function=minit0.qualname)
     # seed parameter not reassigned before use
     minit = cx.fn(CORE + 'Model.__init__')
     for n in ast.walk(minit.node):
@@ -206,6 +224,25 @@ def run(cx: Cx):
                          where=cx.where(f, bad[0].lineno))
         else:
             cx.ok('R-ENTROPY', f"{f.name} reads no module-level mutable state", where=cx.where(f), function=f.qualname)
+    # ... and so does stepping a model: a lock, a counter or a cache at module level is shared by every model of the process, so
+    # what one model does depends on the other models being stepped in between
+    roots = [cx.fn(CORE + 'Model.execute'), cx.fn(CORE + 'SystemManager.execute_systems'), cx.fn(CORE + 'Model.__init__')]
+    reach = cx.effects.reachable(roots)
+    n_st = 0
+    for k in sorted(reach):
+        f = cx.prog.functions.get(k.split('#')[0])
+        if f is None:
+            continue
+        n_st += 1
+        bad = module_state_reads(f)
+        if bad:
+            cx.violation('R-ENTROPY', f.qualname, 'stepping-reads-no-module-state',
+                         f"{f.qualname}, which runs when a model is built or stepped, reads module-level mutable state "
+                         f"({getattr(bad[0], 'id', 'global')}): all models of the process share it, so a trajectory depends on the other "
+                         f"models built and stepped in between", where=cx.where(f, bad[0].lineno))
+    if not any(o.key.endswith('stepping-reads-no-module-state') for o in cx.violations()):
+        cx.ok('R-ENTROPY', f"building and stepping a model reads no module-level mutable state ({n_st} reachable functions examined)",
+              where=cx.where(roots[1]), function=roots[1].qualname)
     _premises(cx)
     from .common import check_no_stateful_memo
     check_no_stateful_memo(cx)
@@ -238,7 +275,7 @@ def _premises(cx):
     include_premises(cx, ['C13'], 'the candidates of a random pick / shuffle are a function of this model\'s state only',
                      only=lambda o: 'exact-template-and-tag-filter' in o.key or o.rule == 'R-FWD')
     keep = ('fresh-model-per-run', 'one-score-of-own-model-per-repetition', 'no-module-level-state', 'work-list-is-product-times-repetitions',
-            'evaluates-the-built-product-list', 'pool-arm-is-an-ordered-map')
+            'evaluates-the-built-product-list', 'pool-arm-is-an-ordered-map', 'steps-through-Model.execute')
     include_premises(cx, ['C15', 'C16'], 'a run is reproducible from its seed, in whatever process it is executed, only if every run and '
                      'repetition builds its own model and the results of a sweep are attributed to their runs independently of worker timing',
                      only=lambda o: any(k in o.key for k in keep) or 'not a Pool created in this call' in o.message)
